@@ -66,7 +66,27 @@ def main():
         verdict, dt, mech = run_one(prop, name, file, old, new, cases)
         print(f"{prop} {name}: {verdict} ({dt:.0f}s) {mech}", flush=True)
         rows.append((prop, name, verdict, mech))
+        record(prop, name, file, verdict, mech)
     return 0
+
+
+def record(prop, name, file, verdict, mech):
+    """selftest/results.json holds the latest verdict per mutant; RESULTS.md is its rendering."""
+    import json
+    rp = os.path.join(HERE, "results.json")
+    res = json.load(open(rp)) if os.path.exists(rp) else {}
+    res["%s/%s" % (prop, name)] = {"file": file, "verdict": verdict, "mechanisms": mech}
+    json.dump(res, open(rp, "w"), indent=1, sort_keys=True)
+    with open(os.path.join(HERE, "RESULTS.md"), "w") as f:
+        f.write("# Self-test mutants: latest verdict of the quick tier per mutant\n\n"
+                "Produced by `python selftest/mutants.py [PROP|all] [name]` (scratch copy of /repo, "
+                "one edit, quick check through VERIF_REPO).  Edits are in mutant_defs_cNN.py.\n\n"
+                "| property | mutant | file | verdict | mechanisms reported |\n|---|---|---|---|---|\n")
+        for k in sorted(res):
+            r = res[k]
+            pr, nm = k.split("/", 1)
+            f.write("| %s | %s | %s | %s | %s |\n" % (pr, nm, r["file"].replace("Lib/ufo2ft/", ""),
+                                                     r["verdict"], r["mechanisms"][:160]))
 
 
 if __name__ == "__main__":
